@@ -19,7 +19,7 @@ PROPERTY = "C05"
 RULE = (
     "finite product: 39 probe signatures ({V,L,N}^n -> {V,L,N}, n<=2) + built-ins + an "
     "unknown name x 12 syntactic positions x 21 argument shapes per parameter; plus "
-    "integers at bound-1/bound/bound+1 for 9 configured ranges (symmetric, asymmetric, one-sided; plus the negated bounds) in every index/slice slot "
+    "integers at bound-1/bound/bound+1 for 12 configured ranges (symmetric, asymmetric, one-sided, beyond 2**53; plus the negated bounds) in every index/slice slot "
     "at top level and inside filters; compile() must succeed exactly when the reference "
     "typing judgement says well-typed and in range; non-trivial = ill-typed or out-of-range "
     "inputs (the half of the equivalence tests rarely sample); distinct by construction"
@@ -111,7 +111,9 @@ def range_env(lo, hi, how="subclass"):
     return _ENV[key]
 
 
-RANGES = [(rt.MINI, rt.MAXI), (-3, 3), (0, 0), (-3, 10), (-10, 3), (0, 5), (-5, 0), (2, 7), (-7, -2)]
+RANGES = [(rt.MINI, rt.MAXI), (-3, 3), (0, 0), (-3, 10), (-10, 3), (0, 5), (-5, 0), (2, 7), (-7, -2),
+          # ranges reaching beyond 2**53: the literal must be compared exactly, not through a float
+          (-(2**53) - 2, 2**53 + 2), (-(10**18), 10**18), (-(2**63), 2**63 - 1)]
 
 
 def range_queries(i):
